@@ -124,6 +124,11 @@ class C12(Prop):
             return src.pick(['p', 'q_1', 'x']) + src.pick(['(): pass\n', '():\n  canary()\n', '(x):\n  yield\n']) + src.pick(['canary()\n', '']) + 'def ' + src.pick(['q', 'p_0', 'z_1'])
         if k == 5:
             return h + src.pick(['x', '_1', ' ', '#'])
+        if k == 2 and src.n(2):
+            # long atoms: an escaped character near a multiple of 100 characters followed by text that would be valid
+            # Python if a (re-wrapped / truncated) string literal ended early
+            n = 90 + src.n(25) + 100 * src.n(2)
+            return 'A' * n + src.pick(['\n', '\r', '\t', "'", '\x00']) + src.pick(['ot in "" and canary())):#', '"" or canary())):#', ' or canary()', ")+canary()+('", '\ncanary()\n'])
         return h
 
     def decode(self, src):
@@ -269,7 +274,20 @@ class C12(Prop):
     # ------------------------------------------------------------------ run-time table, enumerated exhaustively
     def extra_checks(self, tier, seed):
         fz = self.fuzz_campaign(tier, seed)
-        return fz + self.runtime_table(tier, seed)
+        return fz + self.long_atom_sweep() + self.runtime_table(tier, seed)
+
+    def long_atom_sweep(self):
+        """enumerated: atoms of 90-112 and 190-212 characters ending in an escaped character followed by text that
+        would be valid Python if a string literal ended early - in argument, functor-name and goal-name position"""
+        out = []
+        for n in list(range(90, 113)) + list(range(190, 213)):
+            for esc in ('\n', '\r', "'"):
+                for payload in ('ot in "" and canary())):#', '"" or canary())):#', ")+canary()+('"):
+                    name = 'A' * n + esc + payload
+                    for tmpl in ('p(%s).\n', 'p(X) :- X = %s(a).\n'):
+                        case = {'text': tmpl % q(name), 'positions': ['long-atom-sweep']}
+                        out.append((case, self.decide(case)))
+        return out
 
     def runtime_table(self, tier, seed):
         import builtins
